@@ -3,6 +3,11 @@ from checks import c04
 from checks import c01
 from checks import c03
 from checks import c09
+from checks import c10
+from checks import c13
+from checks import c14
+from checks import c05
+from checks import c20
 from checks import c18
 from checks import c15
 
@@ -24,7 +29,12 @@ def c07(ctx):
 
 
 CHECKS = {
+    "C10": c10.run,
+    "C05": c05.run,
+    "C13": c13.run,
+    "C14": c14.run,
     "C15": c15.run,
+    "C20": c20.run,
     "C18": c18.run,
     "C01": c01.run,
     "C03": c03.run,
